@@ -192,6 +192,19 @@ PLAN = {
         explanation="proved: maximality postconditions of the search procedures + interval lemma; bounded: ordering, allocation loop, round robin, uncontrolled (rt.algomon)",
         technique="contract-based deductive verification of the search procedures and a convexity lemma (pyvc/z3) + run-time contract monitor against an executable specification (bounded)",
     ),
+    "C10": dict(
+        level="other",
+        bounded=[dict(module="rt.drivers", fn="pair_monitor", label="paired runs: same inputs, permuted stations / constraints / sessions, shifted events, fresh interpreter")],
+        text="BOUNDED: a relation between pairs of runs, checked on the real simulator - every seeded scenario (scripted, uncontrolled, finite-rate greedy and "
+             "round robin, distinct priority keys) is re-run with equal inputs, with permuted station registration order, permuted constraint order, "
+             "permuted session listing order and with all events shifted by k periods; per-station pilots and rates and per-session energies must be "
+             "identical (shifted by k, zero before the shifted origin); a sample of scenarios is re-run in a fresh interpreter and must agree with the "
+             "in-process run (no state leaking between simulations).",
+        note="nothing is proved for C10 itself: it is a 2-safety property over whole runs; the id-keyed postconditions that would give the per-step "
+             "equivariance lemmas (C04 schedule overlay, C06 feasibility, C12 alignment) are themselves only monitored so far; floats are compared exactly",
+        explanation="bounded paired-run monitor only (rt.drivers.pair_monitor)",
+        technique="run-time paired-run monitor on the real simulator (bounded stand-in)",
+    ),
     "C12": dict(
         level="other",
         bounded=[dict(module="rt.netmon", fn="constraint_monitor", label="add/remove/update/register sequences with algebra-built Currents against the row model")],
